@@ -240,6 +240,19 @@ func golubKahanSVD(inSitu *InSitu, epsilon float64) (Matrix, Matrix, Matrix, err
       }
     }
   }
+  // singular values are non-negative: change the sign of a negative
+  // diagonal element together with the right singular vector
+  for i := 0; i < n; i++ {
+    if s := B.At(i,i); s.GetFloat64() < 0.0 {
+      s.Neg(s)
+      if V != nil {
+        for k := 0; k < n; k++ {
+          v := V.At(k,i)
+          v.Neg(v)
+        }
+      }
+    }
+  }
   if U != nil {
     U = U.T()
   }
